@@ -89,11 +89,14 @@ func marshalValue(self Value, span errors.Span, isInner bool, executor Executor)
 	case ValueList:
 		output := make([]interface{}, 0)
 		for _, value := range *self.Values {
-			marshaled, _, err := marshalValue(*value, span, true, executor)
+			marshaled, skipNull, err := marshalValue(*value, span, true, executor)
 			if err != nil {
 				return nil, false, err
 			}
-			output = append(output, marshaled)
+			// skip builtin functions (like the VM does, and like object fields which hold one)
+			if !skipNull {
+				output = append(output, marshaled)
+			}
 		}
 		return output, false, nil
 	case ValueBuiltinFunction:
